@@ -35,12 +35,15 @@ FMTGRID = os.path.join(ROOT, "build", "seq", "c11")           # the C11 directiv
 FMTGRID_SRC = [os.path.join(ROOT, "engine", "seq", "c11.c")]
 FMTGUARD = os.path.join(ROOT, "build", "seq", "c09")          # the C09 format-language enumerator, used by C02 with the format itself guard-placed
 FMTGUARD_SRC = [os.path.join(ROOT, "engine", "seq", "c09.c")]
+LONGMOVE = os.path.join(ROOT, "build", "seq", "c07")          # the C07 long-move pass, used by C06 for the exactness of the memmove family on long overlapping moves
+LONGMOVE_SRC = [os.path.join(ROOT, "engine", "seq", "c07.c")]
 
 
 def build_harness():
     common.cc(SPECIAL, SPECIAL_SRC, ["-O1", "-g", "-w", "-ldl"])
     common.cc(FMTGRID, FMTGRID_SRC, ["-O1", "-g", "-w", "-Wl,--no-as-needed", "-ldl", "-lm"])
     common.cc(FMTGUARD, FMTGUARD_SRC, ["-O1", "-g", "-w", "-ldl"])
+    common.cc(LONGMOVE, LONGMOVE_SRC, ["-O1", "-g", "-w", "-ldl"])
     common.cc(CAT, SRC[:3], ["-O1", "-g", "-Wall", "-Wno-unused-function", "-pthread"], deps=SRC[3:])
     # -ldl must follow the sources for old linkers; gcc >= 2.34 has dlopen in libc anyway
     return CAT
@@ -71,6 +74,8 @@ def run(pid, tier, deadline_s):
             for loc in ("C", "C.UTF-8"):
                 for grp in (("os",) if pid == "C06" else ("printf", "wprintf", "unicode", "conv", "os")):
                     tasks.append(("special:" + grp, v, loc, 0, 1))
+    if pid == "C06":
+        for sh in range(8): tasks.append(("longmove:" + ("200" if tier == "quick" else "400"), "prod", "C", sh, 8))
     if pid == "C02":
         for fam in ("narrow", "wide"):
             for alpha, L in ((("%ndslh5.x", 4), ("%n[]^s*", 5)) if tier == "quick" else (("%ndslh5.x", 5), ("%n[]^s*d", 6))):
@@ -87,7 +92,9 @@ def run(pid, tier, deadline_s):
             return t, None
         env = dict(os.environ, CAT_LIB=libs[v])
         try:
-            if name.startswith("fmtguard:"):
+            if name.startswith("longmove:"):
+                r = subprocess.run([LONGMOVE, "moves", name[9:], str(sh), str(nsh)], capture_output=True, text=True, errors="replace", env=dict(env, C07_PROP=pid), timeout=left)
+            elif name.startswith("fmtguard:"):
                 _, fam, L, alpha = name.split(":", 3)
                 r = subprocess.run([FMTGUARD, fam, L, alpha, str(sh), str(nsh)], capture_output=True, text=True, errors="replace", env=dict(env, C09_PROP=pid), timeout=left)
             elif name.startswith("fmtgrid:"):
@@ -120,7 +127,9 @@ def run(pid, tier, deadline_s):
                 continue
             j = json.loads(ln)
             if j["t"] == "viol":
-                if name.startswith("fmtguard:"):
+                if name.startswith("longmove:"):
+                    sig = j["sig"]; j["case"] = "longmove " + j["case"]
+                elif name.startswith("fmtguard:"):
                     sig = j["sig"]; j["case"] = "fmtguard " + j["case"]
                 elif name.startswith("fmtgrid:"):
                     sig = j["sig"]; j["case"] = "fmtgrid " + j["case"]
@@ -130,6 +139,8 @@ def run(pid, tier, deadline_s):
                     sig = j["sig"] + ("" if v == "prod" else "|" + v)
                 e = viol.setdefault(sig, [0, j["case"], v, loc])
                 e[0] += j["n"]
+            elif j["t"] == "stat" and name.startswith("longmove:"):
+                evals += j["layouts"]; nontriv += j["layouts"]; pf = per_fn.setdefault("memmove family, long overlapping moves", [0, 0]); pf[0] += j["layouts"]; pf[1] += j["layouts"]
             elif j["t"] == "stat" and name.startswith("fmtguard:"):
                 evals += j["calls"]; nontriv += j["calls"]; pf = per_fn.setdefault("printf/scanf-family format operand", [0, 0]); pf[0] += j["calls"]; pf[1] += j["calls"]
             elif j["t"] == "stat" and name.startswith("fmtgrid:"):
@@ -171,7 +182,9 @@ def replay_kv(kv, quiet=False):
     v = kv.get("variant", "prod")
     lib = vbuild.build(v)
     env = dict(os.environ, CAT_LIB=lib)
-    if kv["case"].startswith("fmtguard "):
+    if kv["case"].startswith("longmove "):
+        r = subprocess.run([LONGMOVE, "replay"] + kv["case"].split()[1:], capture_output=True, text=True, errors="replace", env=dict(env, C07_PROP=kv["property"]))
+    elif kv["case"].startswith("fmtguard "):
         r = subprocess.run([FMTGUARD, "replay"] + kv["case"].split()[1:] + ["x"], capture_output=True, text=True, errors="replace", env=dict(env, C09_PROP=kv["property"]))
     elif kv["case"].startswith("fmtgrid "):
         r = subprocess.run([FMTGRID, "replay"] + kv["case"].split(" ", 7)[1:], capture_output=True, text=True, errors="replace", env=dict(env, C11_PROP=kv["property"]))
